@@ -25,7 +25,13 @@ class LifeScenario(cmdscn.CmdScenario):
             # declared errors; a duplicate/late result is rejected with
             # ValueError by design (C06) - neither is a lifecycle violation
             pass
-        rr = getattr(choice, 'is_rerun', False)
+        # the step that carries out a rerun command: the command itself, or
+        # (when its transaction is explored in several steps) the activity
+        # handling the rerun_workflow request
+        rr = getattr(choice, 'is_rerun', False) or (
+            choice.kind in ('act', 'msg') and
+            (choice.info or '').split(':', 1)[0] == 'msg' and
+            '.rerun_workflow' in (choice.info or ''))
         v.extend(lifecycle.lifecycle_violations(pre, post, is_rerun=rr,
                                                 choice=choice))
         ev = env.W.events
@@ -58,6 +64,10 @@ def programs():
     sub = direct({'s1': T(key='s1')})
     P['subwf'] = direct({'a': T(workflow='sub', **{'on-success': ['b']}),
                          'b': T()}, subs={'sub': sub})
+    P['out2'] = direct(
+        {'a': T(publish={'v': ['lit', 1]}, **{'on-success': ['b']}),
+         'b': T(publish={'w': ['result']})},
+        output={'v': ['var', 'v'], 'w': ['var', 'w']})
     P['items2'] = direct(
         {'a': T(**{'with-items': 'i in <% $.xs %>', 'on-success': ['b']}),
          'b': T()}, input={'xs': ['i0', 'i1']})
@@ -108,6 +118,11 @@ SUB_MENUS = {
 }
 
 
+OVERLAP_MENUS = ('stop', 'pause_resume', 'pause_stop', 'late_result',
+                 'rerun_skip')
+OVERLAP_PROGS = ('seq2', 'out2', 'subwf', 'items2', 'retry1')
+
+
 def scenarios(tier):
     quick = tier == 'quick'
     jobs = []
@@ -140,6 +155,12 @@ def scenarios(tier):
                     wf_input=None, **m)
                 jobs.append((scn, 0 if quick else 1,
                              30 if quick else 900, 1))
+                if mname in OVERLAP_MENUS and pname in OVERLAP_PROGS:
+                    # the command lands inside a transaction of the engine
+                    # that has only read so far (READ COMMITTED overlap)
+                    jobs.append((common.variant(scn, '/overlap', rp=True),
+                                 0 if quick else 1, 30 if quick else 900,
+                                 1))
     return jobs
 
 
